@@ -36,6 +36,8 @@ def c04(res, tier, seed):
     for h in C04_PLAIN + C04_TEXT:
         jobs += K(h, cfgs, timeout=600 if tier == "quick" else 1800)
     run_kani_jobs(res, jobs)
+    import golden
+    golden.cross_check(res, C04_PLAIN + C04_TEXT)
     res.assumptions += ["payload length = the specification length of the layout branch (other lengths: C14)",
                         "type bits pinned to the type only where the parser branches on them (1-3, 4, 11, 9)", SKIPTEXT_NOTE,
                         "quick tier: std configuration only (alloc / no-alloc: thorough tier and C18)"]
@@ -52,6 +54,8 @@ def simple(names_plain, names_text, functions, bounds, technique, assumptions, t
         for h in list(names_plain) + list(names_text):
             jobs += K(h, cfgs, timeout=900 if tier == "quick" else 2700)
         run_kani_jobs(res, jobs)
+        import golden
+        golden.cross_check(res, list(names_plain) + list(names_text))
         res.assumptions += list(assumptions) + ["quick tier: std configuration only (alloc / no-alloc: thorough tier and C18)"]
         if names_text:
             res.assumptions.append(SKIPTEXT_NOTE)
@@ -85,6 +89,8 @@ def c10(res, tier, seed):
         for h in sorted(set(C10_FAST.values())):
             jobs += K(h, ("std",), timeout=2700)
     run_kani_jobs(res, jobs, fallback=C10_FAST)
+    import golden
+    golden.cross_check(res, sorted(set(C10_FAST.values())) + C10_DIRECT_CHEAP)
     res.assumptions += ["'correct to single-precision rounding' read as ULP distance <= 1 from the single-precision quotient (DESIGN.md C10)",
                         "wiring harnesses c10w_*: navigation::parse_longitude/latitude/speed_over_ground/cog replaced by tagged identity "
                         "encodings (integer reasoning only); the leaves are verified for every raw value by c10_leaf_*; a failing c10w_* "
@@ -102,7 +108,7 @@ c11 = simple(C11_PLAIN, C11_TEXT, PAYLOAD_FN + ["navigation::parse_*", "parsers:
 c12 = simple(C12_PLAIN, C12_TEXT, PAYLOAD_FN + ["NavigationStatus/ManeuverIndicator/EpfdType/ShipType/NavaidType/SyncState::parse, Dte::from, Accuracy/AssignedMode/CarrierSense::parse, From<ShipType> for u8"],
              {"codes": "all 256 values of every code (two-variable query for injectivity)", "unwind": 6},
              "Kani/CBMC: code -> variant table from M.1371 compared with matches!, injectivity as a two-variable query, wiring per carrying type", [])
-c16 = simple(C16_PLAIN, [], PAYLOAD_FN + ["radio_status::parse_radio, SotdmaMessage::parse, ItdmaMessage::parse, SubMessage::parse"],
+c16 = simple(C16_PLAIN + ["c16_residual_t09"], [], PAYLOAD_FN + ["radio_status::parse_radio, SotdmaMessage::parse, ItdmaMessage::parse, SubMessage::parse"],
              {"payload": "168 bits, all symbolic: all 2^19 states (2^20 with selector) x all other bits", "unwind": 6},
              "Kani/CBMC: decoded RadioStatus structurally equal to the SOTDMA/ITDMA reference decode of bits 149..168 (selector 148 for 9/18)",
              ["SOTDMA time-out 1: minute asserted only when the 7-bit spec minute is < 64 (oracle neutrality, DESIGN.md C16)"])
